@@ -570,7 +570,7 @@ impl<'a> Judge<'a> {
             Ok(true) => self.ok += 1,
             Ok(false) => self.err += 1,
             Err(p) => {
-                let sig = format!("c20.{}.{}", fmt.codec(), stable_panic_sig(&p));
+                let sig = format!("c20.{}", stable_panic_sig(&p));
                 if let Some(v) = fail(sig, describe(&format!("panicked: {}", p)), &mut self.known) {
                     return Some(v);
                 }
